@@ -558,12 +558,32 @@ def run_impl(ctx, exe, text, timeout=900):
     return rc, [l for l in out if l != ""], err
 
 
+def run_impl_all(ctx, exe, cases, timeout):
+    """run all cases; when the harness dies in a case (sanitizer report, crash, per-case time limit) record it and
+    continue with the following cases.  -> (list of output line or None per case, {index: (rc, stderr)})"""
+    res = [None] * len(cases)
+    died = {}
+    start = 0
+    while start < len(cases) and len(died) < 8:
+        rc, out, err = run_impl(ctx, exe, "\n".join(cases[start:]) + "\n", timeout=timeout)
+        for k, l in enumerate(out[:len(cases) - start]):
+            res[start + k] = l
+        if len(out) >= len(cases) - start:
+            if rc != 0:
+                died[len(cases) - 1] = (rc, err)
+                res[len(cases) - 1] = None
+            break
+        died[start + len(out)] = (rc, err)
+        start = start + len(out) + 1
+    return res, died
+
+
 def shrink(ctx, exe, container, params, ops, budget=120):
     """delta debugging on the operation list, keeping documented preconditions; the failure is re-established on
     the real code for every candidate"""
     def fails(cand):
         line = mk(container, params, cand)
-        rc, out, err = run_impl(ctx, exe, line + "\n", timeout=120)
+        rc, out, err = run_impl(ctx, exe, line + "\n", timeout=60)
         if rc != 0 or not out:
             return True
         return judge(container, params, cand, out[0]) is not None
@@ -609,8 +629,8 @@ def run(ctx):
         if "case" in r:
             cases = [r["case"]] + cases[:20]
     text = "\n".join(cases) + "\n"
-    rc, impl, err = run_impl(ctx, exe, text, timeout=1500 if ctx.quick else 7200)
-    ctx.log("implementation run: %d cases, exit %s" % (len(cases), rc))
+    impl, died = run_impl_all(ctx, exe, cases, timeout=1500 if ctx.quick else 7200)
+    ctx.log("implementation run: %d cases, %d stopped the harness" % (len(cases), len(died)))
     model = []
     try:
         mexe = ctx.model("c09")
@@ -632,14 +652,16 @@ def run(ctx):
             k = container + ":" + o[0]
             opdist[k] = opdist.get(k, 0) + 1
         ctx.count_case(line, nontrivial=len(ops) >= 3)
-        if i >= len(impl):
-            # the harness died (sanitizer report, crash): the first case without output is the culprit
-            if i == len(impl):
-                msg = "the implementation run stopped in this case (exit %s): %s" % (rc, err[-1200:])
-                small = shrink(ctx, exe, container, params, ops) if len(ops) < 3000 else ops
+        if impl[i] is None:
+            if i in died:
+                rcd, errd = died[i]
+                msg = "the implementation run stopped in this case (exit %s): %s" % (rcd, errd[-1200:])
+                small = shrink(ctx, exe, container, params, ops, budget=60) if len(ops) < 3000 else ops
                 ctx.violation("%s:crash:%s" % (container, hashlib.md5(line.encode()).hexdigest()[:10]),
-                              "%s history makes libsc fail under the sanitizers: %s" % (container, msg[:600]),
-                              dict(case=mk(container, params, small), original_ops=len(ops), stderr=err[-3000:]))
+                              "%s history makes libsc fail (sanitizer report, crash or endless loop): %s" % (container, msg[:600]),
+                              dict(case=mk(container, params, small), original_ops=len(ops), stderr=errd[-3000:]))
+            else:
+                ctx.tie_broken("c09 harness run", "case %d was not run (too many failing cases before it)" % i)
             continue
         il = impl[i]
         ml = model[i] if i < len(model) else None
@@ -656,6 +678,8 @@ def run(ctx):
                               dict(case=sline, impl=outs[0] if outs else None, original_case_ops=len(ops), first_message=msg))
         if ml is not None:
             d, infod = compare(container, ops, il, ml)
+            if infod and not ninfo:
+                ctx.log("note: internal layout differs between model and libsc (not judged), first in case %d (%s %s)" % (i, container, params))
             ninfo += infod
             if d is not None:
                 ndis += 1
@@ -669,8 +693,6 @@ def run(ctx):
             for j, info in split_out(il):
                 if j[:1] == ["c"] and info:
                     resize_actions = max(resize_actions, int(info.split()[2], 16))
-    if rc != 0 and len(impl) >= len(cases):
-        ctx.tie_broken("c09 harness run", "exit %s: %s" % (rc, err[-1500:]))
     ctx.cov["disagreements_checked"] = len(cases)
     ctx.cov["rule"] = ("operation histories per container (hash: full grow/shrink cycles over 4000-16000 keys crossing the 4x and 1/4x "
                        "thresholds in both directions under identity / multiplicative / few-bucket / constant / slot-count-multiple hash "
